@@ -14,14 +14,25 @@ selection of a freshly built object with the same state, the exact-rational sele
 the same answer when the call is repeated, an unchanged cloud and pose, and a still-correct original object.
 
 Oracle (independent of the model): exact-rational membership in the scaled footprint through the point's
-coordinates in the box frame (Cramer) and the closed z-range; an exact-rational *vertical-ray* crossing
+coordinates in the box frame (Cramer) and the z-range; an exact-rational *vertical-ray* crossing
 test for polygonal prisms (the code scans horizontally); partition; monotonicity in the scale; exactly-one
 classification with warning <=> Visibility.NONE; the set definition of the non-detection report.
+
+What is NOT demanded (audit 3: the check must stay quiet where the statement holds):
+* points ON the boundary of a box / prism (within 1e-6 of an edge line of the footprint, of the bottom / top plane): the
+  quantifier says "points well inside, well outside"; the oracle does not judge them and the correspondence leaves them out
+  (the model decides them by the half-open rule of the scan, theorems `inside_axis_aligned`, `wn_parallelogram_closed`);
+  they still take part in the partition and count clauses;
+* the ORDER of anything: row selections, the success / fail / warning lists and the non-detection report are compared as
+  sets (of rows, of objects, of points); empty reported arrays are nothing;
+* malformed inputs (no rows x (>= 2 columns) cloud, an area that is no prism over a polygon): outside "all point clouds / all
+  polygonal prisms" - generated, run, counted as `skipped:malformed-input`, neither judged nor compared;
+* exception classes (raised vs returned only); visibilities that are no member of `Visibility`.
+The scale law IS demanded beyond 100 m: it is the documented one (docstring of `SensingFrameConfig.get_scale_factor`).
 """
 from __future__ import annotations
 
 import math
-import os
 from fractions import Fraction
 from typing import Any, Dict, List, Optional, Tuple
 
@@ -79,21 +90,23 @@ TRUSTED = [
     "decimal numerals they print as (0.01 = 1/100); order atoms of different pairs are treated as independent (over-approximation)",
 ]
 ASSUMPTIONS = [
-    "points compared against the geometric oracle are >= 1e-6 away from every footprint edge line (guaranteed by "
-    "construction and re-checked exactly); points exactly on a boundary are compared model-vs-code only and only "
-    "where float arithmetic is exact (identity orientation, dyadic data, vertices, axis-parallel edges, edge midpoints)",
+    "points compared against the geometric oracle and against the model are >= 1e-6 away from the boundary of every scaled box / "
+    "prism: every footprint edge line AND the bottom / top plane (re-checked exactly); points on a boundary are generated in the "
+    "raw / box streams (vertices, edges, planes; flat boxes) and take part in the partition and count clauses only; in the frame / "
+    "manager / derived streams the generator leaves such rows out (counted: unjudged:generator-dropped-boundary-rows)",
     "ground-truth objects are in base_link, carry no FP label, sizes > 0",
     "the scale at an object's distance is positive (>= 1/16): with box_scale_100m < box_scale_0m the linear law reaches 0 at some "
     "distance; objects are placed short of it (a non-positive factor is not a footprint scale)",
     "derived objects: the pose is the one read back from the derived object (whether a conversion/interpolation computes the right "
     "pose is not part of C12); frames on derived objects use a constant scale; a pose produced by a frame conversion carries float "
-    "noise in its height, so points within 1e-6 of its z-bounds are not judged against the exact oracle (still compared with a fresh object)",
+    "noise in its height (points within 1e-6 of a z-bound are not judged for any box; still compared with a fresh object)",
     "the projected footprint of a rolled/pitched box is non-degenerate (det >= 0.3)",
     "arbitrary polygonal prisms: model = algorithm; geometric meaning validated against exact point-in-polygon, not proved",
 ]
 
 Fr = Fraction
 MARGIN = Fraction(1, 10**6)
+QUIRK = False  # experiments only (set in a Python session): prisms whose two planes differ; no environment variable is read
 _STATE: Dict[str, Any] = {}
 
 
@@ -119,6 +132,14 @@ def _rot(quat) -> Tuple[Fraction, Fraction, Fraction, Fraction]:
             _ROT.clear()
         _ROT[key] = r
     return r
+
+
+def _on_z_bound(box, k, r) -> bool:
+    """is the row over the scaled footprint and (within MARGIN) on the bottom / top plane of the box? (float pre-filter, exact decision)"""
+    cz, h = float(box["pos"][2]), float(box["size"][2])
+    if min(abs(float(r[2]) - (cz - h / 2)), abs(float(r[2]) - (cz + h / 2))) > 1e-4:
+        return False
+    return _box_inside(box, _F(k), r, 3) is None
 
 
 def _clear_of_edges(box, k, x, y, margin) -> bool:
@@ -147,18 +168,21 @@ def _local(box, px, py):
 
 
 def _box_inside(box, k: Fraction, row, cols) -> Optional[bool]:
-    """exact membership; None if the point is within MARGIN of an edge line (not judged)"""
+    """exact membership; None (not judged) if the point is within MARGIN of the boundary of the scaled box: an edge line of the
+    footprint, or - when the footprint test does not already exclude it - the bottom / top plane.  The quantifier says "points
+    well inside, well outside"; whether a point exactly ON the boundary counts ("between the box's bottom and top" does not
+    say inclusive) is not stated, so neither the xy edges nor the z bounds are judged (AUDIT3 G5: judged consistently)."""
     xi, eta = _local(box, row[0], row[1])
     w, l, h = (_F(v) for v in box["size"])
     hl, hw = l / 2 * k, w / 2 * k
     if abs(abs(xi) - hl) < MARGIN or abs(abs(eta) - hw) < MARGIN:
         return None
     ok = abs(xi) < hl and abs(eta) < hw
-    if cols >= 3:
+    if ok and cols >= 3:
         z, cz = _F(row[2]), _F(box["pos"][2])
-        if box.get("zfuzzy") and (abs(z - (cz - h / 2)) < MARGIN or abs(z - (cz + h / 2)) < MARGIN):
-            return None  # the centre height carries float noise (a converted pose): a point on the z-bound is not judged
-        ok = ok and (cz - h / 2 <= z <= cz + h / 2)
+        if abs(z - (cz - h / 2)) < MARGIN or abs(z - (cz + h / 2)) < MARGIN:
+            return None
+        ok = cz - h / 2 < z < cz + h / 2
     return ok
 
 
@@ -219,18 +243,26 @@ def _area_of(poly, zlo, zhi):
 
 
 def _prism_inside(area, row, cols) -> Optional[bool]:
+    """exact membership in a polygonal prism; None (not judged) on its boundary: on an edge / vertex of the polygon, or - inside
+    the polygon - on the lowest / highest corner height (see `_box_inside`)"""
     n = len(area) // 2
     poly = [(_F(c[0]), _F(c[1])) for c in area[:n]]
     r = _pip_vertical(poly, _F(row[0]), _F(row[1]))
     if r is None:
         return None
-    if cols >= 3:
+    if r and cols >= 3:
         zs = [_F(c[2]) for c in area]
-        r = r and (min(zs) <= _F(row[2]) <= max(zs))
+        z = _F(row[2])
+        if z == min(zs) or z == max(zs):
+            return None
+        r = min(zs) < z < max(zs)
     return r
 
 
 def _scale(cfg, dist: Fraction) -> Fraction:
+    """the scale at a distance.  "all scales including distance-dependent ones": the law is the documented one, docstring of
+    SensingFrameConfig.get_scale_factor: "Calculate scale factor linearly for bounding box at specified distance.  scale =
+    ((box_scale_100m - box_scale_0m) / (100 - 0)) * (distance - 0) + box_scale_0m" - one linear law, no clamping at 100 m."""
     return Fraction(1, 100) * (_F(cfg["s100"]) - _F(cfg["s0"])) * dist + _F(cfg["s0"])
 
 
@@ -294,9 +326,14 @@ def _mk_cloud(rows, cols):
 
 
 def _idx(arr, rows, cols) -> List[int]:
-    """row indices (positions in `rows`) of the rows of the returned array, in order"""
-    if cols >= 4:
+    """row indices (positions in `rows`) of the rows of the returned array, in the order returned: by the index column when the
+    array carries it, else by the coordinates it does carry (rows are distinct in them, `_dedupe`)"""
+    arr = _mods()["np"].asarray(arr)
+    if arr.ndim != 2:
+        return [-1] * len(arr)  # not a cloud (rows x columns): no row of the input is named
+    if cols >= 4 and arr.shape[1] >= 4:
         return [int(v) for v in arr[:, 3]]
+    cols = min(cols, 3, arr.shape[1]) if arr.shape[1] else min(cols, 3)
     key: Dict[tuple, List[int]] = {}
     for i, r in enumerate(rows):
         key.setdefault(tuple(float(v) for v in r[:cols]), []).append(i)
@@ -311,35 +348,49 @@ def _idx(arr, rows, cols) -> List[int]:
     return out
 
 
-def _try(f):
+def _try(f, then=None):
+    """ONE call into the library that the property is about: its exception becomes {"err": kind}; `then` (harness code that reads
+    the answer) runs outside the `try`, its exceptions propagate as harness errors"""
     try:
-        return f()
+        r = f()
     except Exception as e:  # noqa
         return {"err": type(e).__name__}
+    return then(r) if then is not None else r
+
+
+def _tmpdir():
+    if "tmpdir" not in _STATE:
+        import atexit
+        import shutil
+        import tempfile
+
+        _STATE["tmpdir"] = tempfile.mkdtemp(prefix="c12_")
+        atexit.register(shutil.rmtree, _STATE["tmpdir"], True)
+    return _STATE["tmpdir"]
 
 
 def _manager(cfg):
-    """a real SensingEvaluationManager for the given evaluation parameters (cached)"""
-    key = ("mgr", str(cfg["s0"]), str(cfg["s100"]), cfg["min_points"], tuple(cfg["uuids"]) if cfg.get("uuids") is not None else None)
-    if key not in _STATE:
-        import contextlib
-        import io
-        import tempfile
+    """a NEW real SensingEvaluationManager for the given evaluation parameters: one per case (a manager shared by the cases of
+    a run could carry state from case to case, and a replayed case would meet another manager than it did in the run).
+    Set-up: failures propagate."""
+    import contextlib
+    import io
 
-        from perception_eval.config import SensingEvaluationConfig
-        from perception_eval.manager import SensingEvaluationManager
+    from perception_eval.config import SensingEvaluationConfig
+    from perception_eval.manager import SensingEvaluationManager
 
-        d = _STATE.setdefault("tmpdir", tempfile.mkdtemp(prefix="c12_"))
-        with contextlib.redirect_stderr(io.StringIO()), contextlib.redirect_stdout(io.StringIO()):
-            ec = SensingEvaluationConfig(
-                dataset_paths=[str(core.REPO / "perception_eval" / "test" / "sample_data")],
-                frame_id="base_link", result_root_directory=d,
-                evaluation_config_dict={"evaluation_task": "sensing", "target_uuids": cfg.get("uuids"),
-                                        "box_scale_0m": float(cfg["s0"]), "box_scale_100m": float(cfg["s100"]),
-                                        "min_points_threshold": cfg["min_points"]},
-                load_raw_data=False)
-            _STATE[key] = SensingEvaluationManager(ec)
-    return _STATE[key]
+    data = core.REPO / "perception_eval" / "test" / "sample_data"
+    if not data.is_dir():  # raised here (harness code): a missing checkout is an infrastructure error, not "the loader raised"
+        raise RuntimeError(f"sample data not found: {data}")
+    with contextlib.redirect_stderr(io.StringIO()), contextlib.redirect_stdout(io.StringIO()):
+        ec = SensingEvaluationConfig(
+            dataset_paths=[str(data)],
+            frame_id="base_link", result_root_directory=_tmpdir(),
+            evaluation_config_dict={"evaluation_task": "sensing", "target_uuids": cfg.get("uuids"),
+                                    "box_scale_0m": float(cfg["s0"]), "box_scale_100m": float(cfg["s100"]),
+                                    "min_points_threshold": cfg["min_points"]},
+            load_raw_data=False)
+        return SensingEvaluationManager(ec)
 
 
 def _frame_cfg(cfg):
@@ -348,46 +399,43 @@ def _frame_cfg(cfg):
 
 
 def _canon_frame(res, objs, rows, cols, nd_rows=None):
-    ids = {id(o): i for i, o in enumerate(objs)}
+    ids = {id(o): i for i, o in enumerate(objs)}  # the objects are alive for the whole call: `id` only names the harness's own objects
 
     def lst(rs):
         return [{"gt": ids.get(id(r.ground_truth_object), -1), "num": int(r.inside_pointcloud_num),
                  "inside": _idx(r.inside_pointcloud, rows, cols), "detected": bool(r.is_detected),
                  "occluded": bool(r.is_occluded)} for r in rs]
 
-    nd = []
-    for k, arr in enumerate(res.pointcloud_failed_non_detection):
-        nd.append(arr)
     return {"success": lst(res.detection_success_results), "fail": lst(res.detection_fail_results),
-            "warning": lst(res.detection_warning_results), "nd_raw": nd}
+            "warning": lst(res.detection_warning_results), "nd_raw": list(res.pointcloud_failed_non_detection)}
 
 
-def _nd_ident(nd_raw, nd_clouds, cols):
-    """a reported cloud is a sub-array of one of the given clouds; identify its rows within that cloud"""
-    nd = []
-    given = [(i, r) for i, r in enumerate(nd_clouds)]
-    pos = 0
-    for arr in nd_raw:
-        found = None
-        while pos < len(given):
-            i, r = given[pos]
-            pos += 1
-            ix = _idx(arr, r, cols)
-            c3 = min(cols, 3)
-            if len(ix) > 0 and all(0 <= j < len(r) for j in ix) and ix == sorted(set(ix)) and \
-                    all(tuple(float(v) for v in arr[jj, :c3]) == tuple(float(v) for v in r[j][:c3]) for jj, j in enumerate(ix)):
-                found = {"src": i, "rows": ix}
-                break
-        nd.append(found if found is not None else {"src": -1, "rows": []})
-    return nd
+def _points(arrays, cols):
+    """the POINTS of the reported arrays: the sorted set of coordinate tuples (the coordinates the cloud carries).  The statement
+    speaks about "the points reported as non-detection failures": how they are spread over arrays, the order of the arrays and
+    of the rows, and whether an empty array is listed are not stated."""
+    np = _mods()["np"]
+    c3 = min(cols, 3)
+    pts = set()
+    for arr in arrays:
+        arr = np.asarray(arr)
+        if arr.ndim != 2:
+            continue
+        for row in arr:
+            pts.add(tuple(float(v) for v in row[:c3]))
+    return sorted(list(t) for t in pts)
 
 
 def run_impl(case):
+    """Set-up (objects, clouds, configurations, managers, reading the answers) propagates its exceptions; {"err": kind} is
+    produced only by the calls the property is about (crop_pointcloud / get_inside_pointcloud_num / point_exist /
+    evaluate_frame / add_frame_result / manager.crop_pointcloud)."""
     M = _mods()
     np = M["np"]
     k = case["kind"]
     cols = case["cols"]
     rows = case["cloud"]
+    ix = lambda a: _idx(a, rows, cols)
     if k == "derived":
         return _run_derived(case)
     if k == "raw":
@@ -395,7 +443,7 @@ def run_impl(case):
         area = [list(map(float, c)) for c in case["area"]]
 
         def one(inside):
-            return _try(lambda: _idx(M["crop_pointcloud"](cloud, area, inside=inside), rows, cols))
+            return _try(lambda: M["crop_pointcloud"](cloud, area, inside=inside), ix)
 
         return {"inside": one(True), "outside": one(False)}
     if k == "box":
@@ -405,10 +453,10 @@ def run_impl(case):
         for s in case["scales"]:
             s = float(s)
             out.append({
-                "inside": _try(lambda: _idx(obj.crop_pointcloud(cloud, s, inside=True), rows, cols)),
-                "outside": _try(lambda: _idx(obj.crop_pointcloud(cloud, s, inside=False), rows, cols)),
-                "num": _try(lambda: int(obj.get_inside_pointcloud_num(cloud, s))),
-                "exist": _try(lambda: bool(obj.point_exist(cloud, s))),
+                "inside": _try(lambda: obj.crop_pointcloud(cloud, s, inside=True), ix),
+                "outside": _try(lambda: obj.crop_pointcloud(cloud, s, inside=False), ix),
+                "num": _try(lambda: obj.get_inside_pointcloud_num(cloud, s), int),
+                "exist": _try(lambda: obj.point_exist(cloud, s), bool),
             })
         return {"results": out, "dist": None}
     if k == "frame":
@@ -416,29 +464,13 @@ def run_impl(case):
         objs = [_mk_obj(o) for o in case["objs"]]
         dists = [float(o.get_distance()) for o in objs]
         nds = [_mk_cloud(r, cols) for r in case["nd_clouds"]]
+        res = M["SensingFrameResult"](_frame_cfg(case["cfg"]), 100, "0")
         try:
-            res = M["SensingFrameResult"](_frame_cfg(case["cfg"]), 100, "0")
             res.evaluate_frame(objs, cloud, nds)
         except Exception as e:
             return {"err": type(e).__name__, "dists": dists}
         out = _canon_frame(res, objs, rows, cols)
-        # a reported cloud is a sub-array of one of the given clouds; identify its rows within that cloud
-        nd = []
-        given = [(i, r) for i, r in enumerate(case["nd_clouds"])]
-        pos = 0
-        for arr in out.pop("nd_raw"):
-            found = None
-            while pos < len(given):
-                i, r = given[pos]
-                pos += 1
-                ix = _idx(arr, r, cols)
-                c3 = min(cols, 3)
-                if len(ix) > 0 and all(0 <= j < len(r) for j in ix) and ix == sorted(set(ix)) and \
-                        all(tuple(float(v) for v in arr[jj, :c3]) == tuple(float(v) for v in r[j][:c3]) for jj, j in enumerate(ix)):
-                    found = {"src": i, "rows": ix}
-                    break
-            nd.append(found if found is not None else {"src": -1, "rows": []})
-        out["nd"] = nd
+        out["nd_points"] = _points(out.pop("nd_raw"), cols)
         out["dists"] = dists
         return out
     if k == "manager":
@@ -449,14 +481,13 @@ def run_impl(case):
         mgr = _manager(case["mcfg"])
         frame = M["FrameGroundTruth"](100, "0", list(objs))
         fcfg = _frame_cfg(case["fcfg"]) if case.get("fcfg") is not None else None
-        crop = _try(lambda: [_idx(a, rows, cols) for a in mgr.crop_pointcloud(frame.objects, cloud, areas)])
+        crop = _try(lambda: mgr.crop_pointcloud(frame.objects, cloud, areas), lambda r: [ix(a) for a in r])
         try:
             res = mgr.add_frame_result(100, frame, cloud, areas, fcfg)
-            mgr.frame_results.clear()
         except Exception as e:
             return {"err": type(e).__name__, "dists": dists, "crop": crop}
         out = _canon_frame(res, objs, rows, cols)
-        out["nd"] = [{"rows": _idx(a, rows, cols)} for a in out.pop("nd_raw")]
+        out["nd_rows"] = sorted({j for a in out.pop("nd_raw") for j in ix(a)})
         out["dists"] = dists
         out["crop"] = crop
         return out
@@ -465,8 +496,13 @@ def run_impl(case):
 
 # ----------------------------------------------------------------------------- model side
 
-def _jrows(rows):
-    return [[core.q(r[0]), core.q(r[1]), core.q(r[2])] for r in rows]
+ND_TAG = 100000  # tag of row i of the k-th given non-detection cloud: k * ND_TAG + i (the driver reads a 4th entry as the tag)
+
+
+def _jrows(rows, tag0=None):
+    if tag0 is None:
+        return [[core.q(r[0]), core.q(r[1]), core.q(r[2])] for r in rows]
+    return [[core.q(r[0]), core.q(r[1]), core.q(r[2]), tag0 + i] for i, r in enumerate(rows)]
 
 
 def _jbox(b):
@@ -498,8 +534,25 @@ def _jobjs(objs, dists):
     return out
 
 
+def _malformed(case) -> bool:
+    """inputs outside the quantifier ("all point clouds", "all polygonal non-detection prisms"): a cloud that is no rows x (>= 2
+    columns) array, an area that is no prism over a polygon.  Whether they are rejected or answered is not stated: not judged
+    (oracle), not compared (compare returns "skip", counted)."""
+    k = case["kind"]
+    if case["cols"] < 2:
+        return True
+    bad = lambda a: len(a) // 2 < 3 or len(a) % 2 != 0
+    if k == "raw":
+        return bad(case["area"])
+    if k == "manager":
+        return any(bad(a) for a in case["areas"])
+    return False
+
+
 def model_requests(case, out):
     k = case["kind"]
+    if out.get("unexpected") or _malformed(case):
+        return []
     if k == "raw":
         return [{"op": "crop_raw", "cols": case["cols"], "cloud": _jrows(case["cloud"]),
                  "area": [[core.q(v) for v in c] for c in case["area"]]}]
@@ -508,7 +561,7 @@ def model_requests(case, out):
                  "scales": [core.q(s) for s in case["scales"]]}]
     if k == "frame":
         return [{"op": "frame", "cfg": _jcfg(case["cfg"]), "cols": case["cols"], "objs": _jobjs(case["objs"], out["dists"]),
-                 "cloud": _jrows(case["cloud"]), "nd_clouds": [_jrows(r) for r in case["nd_clouds"]]}]
+                 "cloud": _jrows(case["cloud"]), "nd_clouds": [_jrows(r, k * ND_TAG) for k, r in enumerate(case["nd_clouds"])]}]
     if k == "manager":
         fcfg = case["fcfg"] if case.get("fcfg") is not None else case["mcfg"]
         return [{"op": "manager", "mcfg": _jcfg(case["mcfg"]), "fcfg": _jcfg(fcfg), "cols": case["cols"],
@@ -523,70 +576,125 @@ def model_requests(case, out):
     return []
 
 
-def _cmp_lists(name, a, b):
-    if isinstance(a, dict) or isinstance(b, dict):
-        ea = a.get("err") if isinstance(a, dict) else None
-        eb = b.get("err") if isinstance(b, dict) else None
-        return None if ea == eb and ea is not None else f"{name}: impl {str(a)[:120]} != model {str(b)[:120]}"
-    return None if list(a) == list(b) else f"{name}: impl {str(a)[:160]} != model {str(b)[:160]}"
+def _is_err(x):
+    return isinstance(x, dict) and "err" in x
 
 
-def _cmp_frame(out, m, nd_key):
+def _cmp_lists(name, a, b, judged=None):
+    """two row selections: raised vs returned (the exception CLASS is not compared: the statement names none), and the SAME ROWS
+    (as sets: the statement speaks about which points, not about their order); `judged`: only these rows are compared"""
+    if _is_err(a) or _is_err(b):
+        return None if (_is_err(a) and _is_err(b)) else f"{name}: impl {str(a)[:120]} != model {str(b)[:120]}"
+    sa, sb = sorted(a), sorted(b)
+    if judged is not None:
+        sa, sb = [v for v in sa if v in judged], [v for v in sb if v in judged]
+    return None if sa == sb else f"{name}: impl {str(sa)[:160]} != model {str(sb)[:160]}"
+
+
+def _cmp_frame(case, out, m, nd_points=None):
     if "err" in out or "err" in m:
-        return None if out.get("err") == m.get("err") else f"error kinds differ: impl {out.get('err')} model {m.get('err')}"
+        return None if ("err" in out) == ("err" in m) else f"one side rejects the frame: impl {out.get('err')} model {m.get('err')}"
     for key in ("success", "fail", "warning"):
-        a = [(r["gt"], r["num"], r["inside"]) for r in out[key]]
-        b = [(r["gt"], r["num"], r["inside"]) for r in m[key]]
+        # which objects are in the list, with which points (as sets): the order of a list is not stated
+        a = sorted((r["gt"], r["num"], sorted(r["inside"])) for r in out[key])
+        b = sorted((r["gt"], r["num"], sorted(r["inside"])) for r in m[key])
         if a != b:
             return f"{key}: impl {str(a)[:200]} != model {str(b)[:200]}"
-    a = [r["rows"] for r in out["nd"]]
-    b = [list(r) for r in m["non_detection"]]
-    if a != b:
-        return f"non-detection: impl {str(a)[:200]} != model {str(b)[:200]}"
+    if nd_points is not None:
+        # the reported POINTS (model: tags k * ND_TAG + i of the given clouds -> the coordinates of those rows)
+        c3 = min(case["cols"], 3)
+        b = sorted({tuple(float(v) for v in case["nd_clouds"][t // ND_TAG][t % ND_TAG][:c3]) for r in m["non_detection"] for t in r})
+        a = sorted(tuple(p) for p in nd_points)
+        if a != b:
+            return f"non-detection points: impl {str(a)[:200]} != model {str(b)[:200]}"
+    else:
+        a = sorted(out["nd_rows"])
+        b = sorted({t for r in m["non_detection"] for t in r})
+        if a != b:
+            return f"non-detection rows: impl {str(a)[:200]} != model {str(b)[:200]}"
     return None
 
 
+def _boundary_rows(objs, scales_of, rows, cols):
+    """rows within MARGIN of the boundary of some object's scaled box (not judged, see `_box_inside`); float pre-filter, exact
+    decision.  `scales_of(i)` = the scales at which object i is used"""
+    out = set()
+    for j, r in enumerate(rows):
+        for i, o in enumerate(objs):
+            b = o["box"]
+            for k in scales_of(i):
+                if k <= 0:
+                    continue
+                near_z = cols >= 3 and min(abs(float(r[2]) - (float(b["pos"][2]) - float(b["size"][2]) / 2)),
+                                           abs(float(r[2]) - (float(b["pos"][2]) + float(b["size"][2]) / 2))) < 1e-4
+                if (near_z or not _clear_of_edges(b, k, r[0], r[1], MARGIN)) and _box_inside(b, _F(k), r, cols) is None:
+                    out.add(j)
+    return out
+
+
 def compare(case, out, resps):
+    """Only inputs of the quantifier are compared ("skip" otherwise, counted): well-formed clouds / areas, and only rows that are
+    not ON the boundary of a box or area - the model decides those by the half-open rule of the scan (`inside_axis_aligned`,
+    `wn_parallelogram_closed`), the statement ("points well inside, well outside") does not."""
+    if out.get("unexpected") or _malformed(case):
+        return "skip"
     r = resps[0]
     k = case["kind"]
+    rows, cols = case["cloud"], case["cols"]
     if k == "raw":
-        return _cmp_lists("inside", out["inside"], r["inside"]) or _cmp_lists("outside", out["outside"], r["outside"])
+        # not compared: rows on an edge / vertex of the polygon, and rows at the lowest / highest corner height (for a non-simple
+        # polygon the even-odd test of `_prism_inside` does not say which rows are over the area, so the height alone decides)
+        zs = [_F(c[2]) for c in case["area"]]
+        on_plane = lambda row: cols >= 3 and _F(row[2]) in (min(zs), max(zs))
+        judged = {i for i, row in enumerate(rows) if _prism_inside(case["area"], row, cols) is not None and not on_plane(row)}
+        return _cmp_lists("inside", out["inside"], r["inside"], judged) or _cmp_lists("outside", out["outside"], r["outside"], judged)
     if k == "box":
         for i, (a, b) in enumerate(zip(out["results"], r["results"])):
+            ks = _F(case["scales"][i])
+            judged = set(range(len(rows))) if ks <= 0 else set(_expect_box(case["box"], ks, rows, cols)[1])
             for key in ("inside", "outside"):
-                d = _cmp_lists(f"scale#{i} {key}", a[key], b[key])
+                d = _cmp_lists(f"scale#{i} {key}", a[key], b[key], judged)
                 if d:
                     return d
-            for key in ("num", "exist"):
-                if a[key] != b[key]:
-                    return f"scale#{i} {key}: impl {a[key]} != model {b[key]}"
+            if len(judged) == len(rows):
+                for key in ("num", "exist"):
+                    if _is_err(a[key]) or _is_err(b[key]):
+                        if _is_err(a[key]) != _is_err(b[key]):
+                            return f"scale#{i} {key}: impl {a[key]} != model {b[key]}"
+                    elif a[key] != b[key]:
+                        return f"scale#{i} {key}: impl {a[key]} != model {b[key]}"
         return None
-    if k == "frame":
-        return _cmp_frame(out, r, "nd")
-    if k == "manager":
-        d = _cmp_frame(out, r["frame"], "nd")
+    if k in ("frame", "manager"):
+        if any(str(o.get("vis")).startswith("str:") for o in case["objs"]):
+            return "skip"  # a visibility that is no member of Visibility: outside the annotated type, its meaning is not stated
+        cfgs = [case["cfg"]] if k == "frame" else [case["mcfg"]] + ([case["fcfg"]] if case.get("fcfg") is not None else [])
+        dists = out["dists"]
+        every = list(rows) + ([p for c in case["nd_clouds"] for p in c] if k == "frame" else [])
+        if _boundary_rows(case["objs"], lambda i: [_scale(c, _F(dists[i])) for c in cfgs], every, cols):
+            return "skip"
+        if k == "manager" and any(_prism_inside(a, row, cols) is None for a in case["areas"] for row in rows):
+            return "skip"
+        if k == "frame":
+            return _cmp_frame(case, out, r, out.get("nd_points", []))
+        d = _cmp_frame(case, out, r["frame"])
         if d:
             return d
         a, b = out["crop"], r["crop"]
-        if isinstance(a, dict) or isinstance(b, dict):
+        if _is_err(a) or _is_err(b):
             return _cmp_lists("manager.crop_pointcloud", a, b)
-        if [list(x) for x in a] != [list(x) for x in b]:
+        if [sorted(x) for x in a] != [sorted(x) for x in b]:
             return f"manager.crop_pointcloud: impl {str(a)[:160]} != model {str(b)[:160]}"
         return None
     if k == "derived":
         for j, (fin, rr) in enumerate(zip(out["final"], resps)):
-            # a converted pose carries float noise in its height: rows on a z-bound are left out of the comparison
-            fz = _zfuzzy_rows(_state_box(out["state"][j]), case["cloud"], case["cols"])
+            box = _state_box(out["state"][j])
             for i, (a, b) in enumerate(zip(fin, rr["results"])):
+                judged = set(_expect_box(box, _F(case["scales"][i]), rows, cols)[1])
                 for key in ("inside", "outside"):
-                    if isinstance(a[key], dict) or isinstance(b[key], dict):
-                        d = _cmp_lists(f"derived object #{j} ({case['how']}) scale#{i} {key}", a[key], b[key])
-                    else:
-                        d = _cmp_lists(f"derived object #{j} ({case['how']}) scale#{i} {key}", [v for v in a[key] if v not in fz],
-                                       [v for v in b[key] if v not in fz])
+                    d = _cmp_lists(f"derived object #{j} ({case['how']}) scale#{i} {key}", a[key], b[key], judged)
                     if d:
                         return d
-                if not fz:
+                if len(judged) == len(rows):
                     for key in ("num", "exist"):
                         if a[key] != b[key]:
                             return f"derived object #{j} ({case['how']}) scale#{i} {key}: impl {a[key]} != model {b[key]}"
@@ -596,16 +704,18 @@ def compare(case, out, resps):
 # ----------------------------------------------------------------------------- oracle (the property on the real output)
 
 def _partition(n, ins, outs, what):
-    if isinstance(ins, dict) or isinstance(outs, dict):
-        if isinstance(ins, dict) and isinstance(outs, dict) and ins.get("err") == outs.get("err"):
+    """"the inside and outside selections partition the cloud": every row in exactly one of the two (a statement about WHICH
+    rows; the order in which a selection lists them is not stated)"""
+    if _is_err(ins) or _is_err(outs):
+        if _is_err(ins) and _is_err(outs):
             return None
         return f"{what}: inside/outside disagree on rejection: {ins} vs {outs}"
-    if sorted(ins) != ins or sorted(outs) != outs or len(set(ins)) != len(ins) or len(set(outs)) != len(outs):
-        return f"{what}: selection is not an order-preserving sub-sequence of the cloud"
     if sorted(ins + outs) != list(range(n)):
         both = sorted(set(ins) & set(outs))
         miss = sorted(set(range(n)) - set(ins) - set(outs))
-        return f"{what}: inside and outside do not partition the cloud (in both: {both[:5]}, in neither: {miss[:5]})"
+        dup = sorted({i for i in ins if ins.count(i) > 1} | {i for i in outs if outs.count(i) > 1})
+        return (f"{what}: inside and outside do not partition the cloud (in both: {both[:5]}, in neither: {miss[:5]}, "
+                f"listed twice: {dup[:5]}, unknown rows: {sorted(set(ins + outs) - set(range(n)))[:5]})")
     return None
 
 
@@ -623,92 +733,86 @@ def _expect_box(box, k, rows, cols, skip=()):
     return exp, judged
 
 
-def _objects_expect(case, cfg, objs, dists):
-    """per object: scale, exact inside set over the judged rows"""
-    rows, cols = case["cloud"], case["cols"]
-    res = []
-    for o, d in zip(objs, dists):
-        k = _scale(cfg, _F(d))
-        exp, judged = _expect_box(o["box"], k, rows, cols)
-        res.append((k, exp, judged))
-    return res
-
-
-def _oracle_detection(case, cfg, objs, out, rows, cols):
-    # every GT object exactly once
+def _oracle_detection(case, cfg, objs, out, rows, cols, targets=None):
+    """`objs`: all ground-truth objects handed over; `targets`: the ones the configuration selects (uuid filter; default all)"""
+    targets = set(range(len(objs))) if targets is None else set(targets)
+    # "Each ground-truth object is reported as exactly one of detected / not detected / warning"
     seen = {}
     for key in ("success", "fail", "warning"):
         for r in out[key]:
             seen.setdefault(r["gt"], []).append(key)
     for i, o in enumerate(objs):
-        if len(seen.get(i, [])) != 1:
+        if i in targets and len(seen.get(i, [])) != 1:
             return f"object #{i} reported {seen.get(i, [])} (must be in exactly one of success/fail/warning)"
+        if i not in targets and len(seen.get(i, [])) > 1:
+            return f"object #{i} (no target of the uuid filter) reported {seen.get(i, [])}: more than once"
     if set(seen) - set(range(len(objs))):
         return f"results for unknown objects {sorted(set(seen) - set(range(len(objs))))}"
     for key in ("success", "fail", "warning"):
-        gts = [r["gt"] for r in out[key]]
-        if gts != sorted(gts):
-            return f"{key} list does not keep the order of the ground-truth list: {gts}"
         for r in out[key]:
             o = objs[r["gt"]]
             k = _scale(cfg, _F(out["dists"][r["gt"]]))
             exp, judged = _expect_box(o["box"], k, rows, cols)
-            got = [i for i in r["inside"] if i in set(judged)]
+            got = sorted(i for i in r["inside"] if i in set(judged))
             if got != exp:
                 return (f"object #{r['gt']} (scale {float(k):.6g}): inside rows {got[:12]} but geometrically inside are "
                         f"{exp[:12]} (box {o['box']})")
             if r["num"] != len(r["inside"]):
                 return f"object #{r['gt']}: inside_pointcloud_num {r['num']} != len(inside_pointcloud) {len(r['inside'])}"
-            # annotated fully occluded: the member Visibility.NONE, or its value given as a plain string
-            occluded = o.get("vis") in ("NONE", "str:none")
-            want = "warning" if occluded else ("success" if r["num"] >= cfg["min_points"] else "fail")
-            if key != want:
-                return (f"object #{r['gt']} (visibility {o.get('vis')}, {r['num']} points, threshold {cfg['min_points']}) "
-                        f"reported as {key}, must be {want}")
+            # "warning (annotated as fully occluded)": the annotation is the member Visibility.NONE.  A visibility that is no
+            # member (a raw string) is outside the annotated type Optional[Visibility]: whether it counts as occluded is not judged
+            vis = o.get("vis")
+            by_count = "success" if r["num"] >= cfg["min_points"] else "fail"
+            allowed = {"warning"} if vis == "NONE" else {"warning", by_count} if str(vis).startswith("str:") else {by_count}
+            if key not in allowed:
+                return (f"object #{r['gt']} (visibility {vis}, {r['num']} points, threshold {cfg['min_points']}) "
+                        f"reported as {key}, must be {' or '.join(sorted(allowed))}")
     return None
 
 
-def _oracle_nd_frame(objs, cfg, dists, nd_clouds, out_nd, cols):
-    """the non-detection report of evaluate_frame: per given cloud exactly the rows outside every scaled box"""
-    want = []
-    for src, nrows in enumerate(nd_clouds):
-        keep, undecided = [], False
-        for i, r in enumerate(nrows):
+def _oracle_nd_frame(objs, cfg, dists, nd_clouds, got_points, cols):
+    """"the points reported as non-detection failures are exactly the points that lie in a non-detection area and outside every
+    scaled object box": as a set of points (coordinate tuples); points on the boundary of a box are not judged"""
+    c3 = min(cols, 3)
+    want, open_ = set(), set()
+    for nrows in nd_clouds:
+        for r in nrows:
+            t = tuple(float(v) for v in r[:c3])
             vals = [_box_inside(o["box"], _scale(cfg, _F(dd)), r, cols) for o, dd in zip(objs, dists)]
-            if any(v is None for v in vals):
-                undecided = True
-                continue
-            if not any(vals):
-                keep.append(i)
-        want.append((src, keep, undecided))
-    rep = {r["src"]: r["rows"] for r in out_nd}
-    if any(r["src"] < 0 for r in out_nd):
-        return "a reported non-detection cloud is not an ordered sub-array of a given cloud"
-    for src, keep, undecided in want:
-        if undecided:
-            continue
-        got = rep.get(src)
-        if (got or []) != keep:
-            return (f"non-detection cloud #{src}: reported rows {got} but the rows outside every scaled box are {keep}")
+            if any(v is None for v in vals) and not any(v for v in vals):
+                open_.add(t)
+            elif not any(vals):
+                want.add(t)
+    got = {tuple(p) for p in got_points}
+    if got - open_ != want - open_:
+        extra, miss = sorted(got - want - open_), sorted(want - got - open_)
+        return (f"non-detection report: points {extra[:6]} are reported although inside a scaled box (or in no given cloud); "
+                f"points {miss[:6]} lie in a non-detection cloud outside every scaled box and are not reported")
     return None
+
+
+def _unexpected(out):
+    """an exception escaped `run_impl` (the runner of the new convention reports it itself and does not call the oracle): out of
+    the library = the real code failed; otherwise a harness error, which is not a violation"""
+    tr = str(out.get("trace", ""))
+    if "perception_eval/perception_eval/" in tr:
+        return f"the real code raised {out.get('err')} unexpectedly: {tr[-300:]}"
+    raise RuntimeError(f"harness error in run_impl ({out.get('err')}): {tr[-400:]}")
 
 
 def oracle(case, out):
     k = case["kind"]
+    if out.get("unexpected"):
+        return _unexpected(out)
+    if _malformed(case):
+        return None  # outside the quantifier (see `_malformed`): rejected or answered, no claim
     if k == "derived":
         return _oracle_derived(case, out)
     rows, cols = case["cloud"], case["cols"]
     n = len(rows)
     if k == "raw":
-        bad_shape = cols < 2
-        bad_area = len(case["area"]) // 2 < 3 or len(case["area"]) % 2 != 0
-        if bad_shape or bad_area:
-            for key in ("inside", "outside"):
-                if not isinstance(out[key], dict):
-                    return f"malformed input (cols={cols}, {len(case['area'])} corners) accepted by crop_pointcloud({key})"
-            return None
         d = _partition(n, out["inside"], out["outside"], "crop_pointcloud")
-        if d or isinstance(out["inside"], dict):
+        if d or _is_err(out["inside"]):
             return d or f"well-formed input rejected: {out['inside']}"
         if case.get("geom") in ("simple",):
             exp, judged = [], set()
@@ -719,7 +823,7 @@ def oracle(case, out):
                 judged.add(i)
                 if v:
                     exp.append(i)
-            got = [i for i in out["inside"] if i in judged]
+            got = sorted(i for i in out["inside"] if i in judged)
             if got != exp:
                 diff = sorted(set(got) ^ set(exp))
                 return (f"inside rows differ from exact point-in-polygon at rows {diff[:8]}: "
@@ -728,28 +832,29 @@ def oracle(case, out):
     if k == "box":
         prev = None
         for s, r in zip(case["scales"], out["results"]):
-            if cols < 2:
-                if not all(isinstance(r[key], dict) for key in ("inside", "outside", "num", "exist")):
-                    return f"cloud with {cols} columns accepted"
-                continue
             d = _partition(n, r["inside"], r["outside"], f"DynamicObject.crop_pointcloud(scale={s})")
-            if d or isinstance(r["inside"], dict):
+            if d or _is_err(r["inside"]):
                 return d or f"well-formed input rejected: {r['inside']}"
+            if _is_err(r["num"]) or _is_err(r["exist"]):
+                return f"scale {s}: well-formed input rejected by get_inside_pointcloud_num / point_exist: {r['num']} / {r['exist']}"
             ks = _F(s)
+            judged = list(range(n))
             if ks > 0:
-                exp, judged = _expect_box(case["box"], ks, rows, cols, skip=set(case.get("boundary", [])))
-                got = [i for i in r["inside"] if i in set(judged)]
+                exp, judged = _expect_box(case["box"], ks, rows, cols)
+                got = sorted(i for i in r["inside"] if i in set(judged))
                 if got != exp:
                     diff = sorted(set(got) ^ set(exp))
                     return (f"scale {s}: inside rows differ from the exact footprint/z test at rows {diff[:8]}: "
                             f"points {[rows[i] for i in diff[:4]]}, box {case['box']}")
             if r["num"] != len(r["inside"]) or r["exist"] != (r["num"] > 0):
                 return f"scale {s}: get_inside_pointcloud_num {r['num']} / point_exist {r['exist']} vs {len(r['inside'])} inside rows"
+            # "enlarging the scale never removes an inside point" (points ON the boundary at either scale are not judged)
             if prev is not None and _F(prev[0]) > 0 and _F(prev[0]) <= ks:
-                lost = [i for i in prev[1] if i not in set(r["inside"]) and i not in set(case.get("boundary", []))]
+                ok = set(judged) & set(prev[2])
+                lost = [i for i in prev[1] if i not in set(r["inside"]) and i in ok]
                 if lost:
                     return f"enlarging the scale {prev[0]} -> {s} removed inside rows {lost[:8]}: {[rows[i] for i in lost[:4]]}"
-            prev = (s, r["inside"])
+            prev = (s, r["inside"], judged)
         return None
     if k in ("frame", "manager"):
         objs = case["objs"]
@@ -758,56 +863,34 @@ def oracle(case, out):
         targets = list(range(len(objs)))
         if k == "manager" and fcfg.get("uuids") is not None:
             targets = [i for i, o in enumerate(objs) if o.get("uuid") in fcfg["uuids"]]
-        tobjs = [objs[i] for i in targets]
         if "err" in out:
-            crops = (len(tobjs) > 0) or (k == "frame" and len(objs) > 0 and len(case["nd_clouds"]) > 0)
-            bad_area = k == "manager" and any(len(a) // 2 < 3 or len(a) % 2 != 0 for a in case["areas"])
-            mgr_crops = k == "manager" and (len(case["areas"]) > 0)
-            if (cols < 2 and (crops or mgr_crops)) or bad_area:
-                return None
             return f"well-formed frame rejected with {out['err']}"
-        if cols < 2 and len(tobjs) > 0:
-            return f"cloud with {cols} columns accepted"
-        # detection (ids in `out` are positions in case['objs'])
-        sub = {"success": out["success"], "fail": out["fail"], "warning": out["warning"], "dists": out["dists"]}
-        remap = {g: j for j, g in enumerate(targets)}
-        for key in ("success", "fail", "warning"):
-            for r in sub[key]:
-                if r["gt"] not in remap:
-                    return f"object #{r['gt']} is not a target (uuid filter) but was evaluated"
-        sub2 = {key: [dict(r, gt=remap[r["gt"]]) for r in sub[key]] for key in ("success", "fail", "warning")}
-        sub2["dists"] = [out["dists"][g] for g in targets]
-        d = _oracle_detection(case, fcfg, tobjs, sub2, rows, cols)
+        d = _oracle_detection(case, fcfg, objs, out, rows, cols, targets)
         if d:
             return d
         # non-detection
         if k == "frame":
-            return _oracle_nd_frame(objs, fcfg, out["dists"], case["nd_clouds"], out["nd"], cols)
-        # manager: rows of the cloud inside area a and outside every box (manager scale, all objects; frame scale, targets)
-        reported = [r["rows"] for r in out["nd"]]
-        want = []
+            return _oracle_nd_frame(objs, fcfg, out["dists"], case["nd_clouds"], out["nd_points"], cols)
+        # manager: rows of the cloud inside an area and outside every box (manager scale, all objects; frame scale, targets)
+        want, open_ = set(), set()
         for a in case["areas"]:
-            keep = []
             for i, r in enumerate(rows):
                 ina = _prism_inside(a, r, cols)
-                if ina is None:
-                    keep = None
-                    break
-                if not ina:
+                if ina is False:
                     continue
                 vals = [_box_inside(o["box"], _scale(mcfg, _F(dd)), r, cols) for o, dd in zip(objs, out["dists"])]
                 vals += [_box_inside(objs[g]["box"], _scale(fcfg, _F(out["dists"][g])), r, cols) for g in targets]
-                if any(v is None for v in vals):
-                    keep = None
-                    break
-                if not any(vals):
-                    keep.append(i)
-            want.append(keep)
-        if any(w is None for w in want):
-            return None  # a boundary point: not judged
-        want = [w for w in want if w]
-        if reported != want:
-            return f"non-detection report {str(reported)[:200]} but rows in an area and outside every scaled box are {str(want)[:200]}"
+                if any(vals):
+                    continue
+                if ina is None or any(v is None for v in vals):
+                    open_.add(i)  # on the boundary of the area or of a box: not judged
+                else:
+                    want.add(i)
+        got = set(out["nd_rows"])
+        inside_any = {i for i in got if i not in open_ and i not in want}
+        if got - open_ != want - open_:
+            return (f"non-detection report: rows {sorted(inside_any)[:8]} are reported although in no area or inside a scaled box; rows "
+                    f"{sorted(want - got - open_)[:8]} lie in an area and outside every scaled box and are not reported")
         return None
     return None
 
@@ -859,7 +942,7 @@ def _gen_poly(rng, shape, center=None):
     return poly, "simple"
 
 
-def _poly_points(rng, poly, zlo, zhi, n, boundary=True):
+def _poly_points(rng, poly, zlo, zhi, n, boundary=True):  # boundary=False: no row ON an edge / vertex / the two planes
     """grid points around a polygon: random, at vertex heights, (optionally) on vertices / axis-parallel edges / midpoints, z on bounds"""
     xs = [p[0] for p in poly]
     ys = [p[1] for p in poly]
@@ -876,9 +959,9 @@ def _poly_points(rng, poly, zlo, zhi, n, boundary=True):
     def z():
         u = rng.random()
         if u < 0.12:
-            return zlo
+            return zlo if boundary else zlo + rng.choice([-0.125, 0.125])
         if u < 0.24:
-            return zhi
+            return zhi if boundary else zhi + rng.choice([-0.125, 0.125])
         if u < 0.8:
             return _dy(rng, zlo, zhi)
         return _dy(rng, zlo - 2, zhi + 2)
@@ -937,7 +1020,7 @@ def _gen_raw(rng, malformed=False):
         n = len(poly)
         area = area[n:] + area[:n]
     variant = "prism"
-    if os.environ.get("C12_QUIRK") and rng.random() < 0.3:
+    if QUIRK and rng.random() < 0.3:
         # (experiments only) the two planes differ: exercises the `area[i + 1]` index of the code. Not part of the
         # registered runs: such areas violate the documented precondition of crop_pointcloud, and the theorem
         # index_quirk_unobservable shows that the index cannot be observed on prisms.
@@ -1002,7 +1085,7 @@ def _place(rng, rclass, dmax=1000.0):
     return [round(d * math.cos(a) * 8) / 8, round(d * math.sin(a) * 8) / 8, _dy(rng, -2, 2)]
 
 
-def _gen_box(rng, mode=None, near=None, rclass=None, dmax=1000.0):
+def _gen_box(rng, mode=None, near=None, rclass=None, dmax=1000.0, flat_ok=False):
     mode = mode or rng.choice(["identity", "yaw", "yaw", "yaw", "yaw_flip", "full"])
     if rclass is not None:
         pos = _place(rng, rclass, dmax)
@@ -1011,13 +1094,15 @@ def _gen_box(rng, mode=None, near=None, rclass=None, dmax=1000.0):
     else:
         pos = [near[0] + _dy(rng, -6, 6), near[1] + _dy(rng, -6, 6), _dy(rng, -2, 2)]
     size = [_dy(rng, 0.5, 3), _dy(rng, 0.5, 6), _dy(rng, 0.5, 3)]
-    if rng.random() < 0.08:
-        size[2] = 0.0  # a flat box: only points with z == cz are inside
+    if rng.random() < 0.08 and flat_ok:
+        size[2] = 0.0  # a flat box (`box` stream only): bottom = top, every point over the footprint at that height is ON the boundary
     return {"pos": pos, "quat": _gen_quat(rng, mode), "size": size, "mode": mode}
 
 
 def _box_points(rng, box, scales, n, boundary_ok):
-    """rows around a box: inside the smallest scale, between the scales, outside, z in / on / out; returns (rows, boundary_idx)"""
+    """rows around a box: inside the smallest scale, between the scales, outside, z in / near / out (ON the bottom / top plane only
+    with `boundary_ok`); returns (rows, boundary_idx, number of candidate rows rejected because they graze an edge line)"""
+    rejected = 0
     e1x, e1y, e2x, e2y = (float(v) for v in _rot(box["quat"]))
     w, l, h = box["size"]
     cx, cy, cz = box["pos"]
@@ -1067,10 +1152,9 @@ def _box_points(rng, box, scales, n, boundary_ok):
         x = round((cx + lx * e1x + ly * e2x) * 16) / 16
         y = round((cy + lx * e1y + ly * e2y) * 16) / 16
         v = rng.random()
-        if v < 0.1:
-            zz = cz + h / 2
-        elif v < 0.2:
-            zz = cz - h / 2
+        if v < 0.2:
+            # on the top / bottom plane (not judged: only where boundary rows are wanted), else 1/16 inside or outside of it
+            zz = cz + (h / 2 if v < 0.1 else -h / 2) + (0.0 if boundary_ok else rng.choice([-0.0625, 0.0625]))
         elif v < 0.8:
             zz = round((cz + rng.uniform(-0.5, 0.5) * h) * 16) / 16
         else:
@@ -1078,19 +1162,21 @@ def _box_points(rng, box, scales, n, boundary_ok):
         # margin from every edge line of every scale (exact)
         if all(_clear_of_edges(box, s, x, y, 10 * MARGIN) for s in scales if s > 0):
             rows.append([x, y, zz])
-    return rows, bidx
+        else:
+            rejected += 1
+    return rows, bidx, rejected
 
 
 def _gen_boxcase(rng, malformed=False):
-    box = _gen_box(rng)
+    box = _gen_box(rng, flat_ok=True)
     pool = [0.5, 0.75, 1.0, 1.0, 1.125, 1.25, 1.5, 2.0, 1.1, 0.9, 1.3]
     scales = sorted(rng.sample(pool, rng.randint(1, 4)))
     if rng.random() < 0.05:
         scales = [0.0] + scales  # degenerate footprint: nothing is inside
     cols = rng.choice([2, 3, 3, 4, 4, 6])
     dy_scales = all((s * 8) % 1 == 0 for s in scales)
-    rows, bidx = _box_points(rng, box, [s for s in scales if s > 0] or [1.0], rng.choice([0, 10, 40, 100, 100, 150]),
-                             boundary_ok=(box["mode"] == "identity" and dy_scales))
+    rows, bidx, rejected = _box_points(rng, box, [s for s in scales if s > 0] or [1.0], rng.choice([0, 10, 40, 100, 100, 150]),
+                                       boundary_ok=(box["mode"] == "identity" and dy_scales))
     if malformed:
         cols = rng.choice([0, 1])
     if cols < 4:
@@ -1101,10 +1187,13 @@ def _gen_boxcase(rng, malformed=False):
             bset = {tuple(rows[i]) for i in bidx}
             rows = rows2
             bidx = [i for i, r in enumerate(rows) if tuple(r) in bset]
-    return {"kind": "box", "cols": cols, "cloud": rows, "box": box, "scales": scales, "boundary": bidx}
+    return {"kind": "box", "cols": cols, "cloud": rows, "box": box, "scales": scales, "boundary": bidx, "dropped": rejected}
 
 
-_VIS = ["FULL", "MOST", "PARTIAL", "NONE", "NONE", "NONE", "UNAVAILABLE", None, None, "str:none", "str:NONE", "str:full"]
+# members of Visibility / no annotation.  Raw strings ("none", "NONE", "full": outside the annotated type Optional[Visibility],
+# their meaning is that of Visibility.__eq__(str), which the statement does not fix) are not generated; a case that carries one
+# ("str:…", e.g. an old replay) is run, and its warning-vs-count decision for that object is not judged.
+_VIS = ["FULL", "MOST", "PARTIAL", "NONE", "NONE", "NONE", "UNAVAILABLE", None, None]
 
 
 def _gen_cfg(rng, uuids=None):
@@ -1130,6 +1219,7 @@ def _gen_cfg(rng, uuids=None):
 def _scene(rng, nobj, cfgs, npts, per_obj=(0, 1, 2, 3, 4, 6, 10)):
     """objects (some overlapping), a cloud with clusters in / around every box under every configuration's scale"""
     objs = []
+    dropped = 0
     # the range over which every configuration's scale stays clearly positive (a shrinking scale reaches 0 somewhere:
     # a non-positive scale is not a footprint scale); far objects are placed within it, also where the scale has
     # extrapolated to a small positive number
@@ -1161,7 +1251,8 @@ def _scene(rng, nobj, cfgs, npts, per_obj=(0, 1, 2, 3, 4, 6, 10)):
             keep = set(s for s in true_scales if s > 0)
             rest = sorted((s for s in scales if s not in keep), key=lambda v: min(abs(v - t) for t in keep) if keep else 0)
             scales = sorted(keep | set(rest[:4 - len(keep)])) if len(keep) < 4 else sorted(keep)
-        r, _ = _box_points(rng, o["box"], scales, rng.choice(per_obj) if npts else 0, boundary_ok=False)
+        r, _, rej = _box_points(rng, o["box"], scales, rng.choice(per_obj) if npts else 0, boundary_ok=False)
+        dropped += rej
         rows.extend(r)
     for _ in range(npts):
         rows.append([_dy(rng, -45, 45, 16), _dy(rng, -45, 45, 16), _dy(rng, -3, 3, 16)])
@@ -1174,18 +1265,19 @@ def _scene(rng, nobj, cfgs, npts, per_obj=(0, 1, 2, 3, 4, 6, 10)):
             for c in cfgs:
                 # the real distance is a float sqrt; a relative error of 1e-15 cannot move an edge by more than 1e-12
                 k = _scale(c, _F(d))
-                if not _clear_of_edges(o["box"], k, r[0], r[1], 10 * MARGIN):
+                if not _clear_of_edges(o["box"], k, r[0], r[1], 10 * MARGIN) or _on_z_bound(o["box"], k, r):
                     ok = False
         if ok:
             good.append(r)
+    dropped += len(rows) - len(good)
     rng.shuffle(good)
-    return objs, good
+    return objs, good, dropped
 
 
 def _gen_frame(rng, malformed=False):
     cfg = _gen_cfg(rng)
     nobj = rng.choice([0, 1, 1, 2, 3, 5, 8])
-    objs, rows = _scene(rng, nobj, [cfg], rng.choice([0, 5, 20, 60]))
+    objs, rows, dropped = _scene(rng, nobj, [cfg], rng.choice([0, 5, 20, 60]))
     cols = rng.choice([2, 3, 3, 4, 4, 5])
     if malformed:
         cols = 1 if nobj == 0 else rng.choice([0, 1])
@@ -1203,7 +1295,7 @@ def _gen_frame(rng, malformed=False):
         nd.append(sub)
     for o in objs:
         o.pop("uuid", None)
-    return {"kind": "frame", "cols": cols, "cloud": rows, "objs": objs, "cfg": cfg, "nd_clouds": nd}
+    return {"kind": "frame", "cols": cols, "cloud": rows, "objs": objs, "cfg": cfg, "nd_clouds": nd, "dropped": dropped}
 
 
 def _gen_manager(rng, malformed=False):
@@ -1220,7 +1312,7 @@ def _gen_manager(rng, malformed=False):
         fcfg = _gen_cfg(rng, uuids=rng.choice([None, None, ["u0"], ["u1", "u2", "dup"], []]))
     cfgs = [mcfg] + ([fcfg] if fcfg else [])
     nobj = rng.choice([0, 1, 2, 3, 5])
-    objs, rows = _scene(rng, nobj, cfgs, rng.choice([5, 20, 40]), per_obj=(2, 6, 10, 16))
+    objs, rows, dropped = _scene(rng, nobj, cfgs, rng.choice([5, 20, 40]), per_obj=(2, 6, 10, 16))
     cols = rng.choice([2, 3, 3, 4, 4])
     areas = []
     for _ in range(rng.choice([0, 1, 1, 2, 3])):
@@ -1248,13 +1340,14 @@ def _gen_manager(rng, malformed=False):
             d = float(math.sqrt(sum(v * v for v in o["box"]["pos"])))
             for c in cfgs:
                 k = _scale(c, _F(d))
-                if not _clear_of_edges(o["box"], k, r[0], r[1], 10 * MARGIN):
+                if not _clear_of_edges(o["box"], k, r[0], r[1], 10 * MARGIN) or _on_z_bound(o["box"], k, r):
                     ok = False
         for a in areas:
-            if _prism_inside(a, r, 2) is None:
+            if _prism_inside(a, r, 3) is None:  # on an edge / vertex of the polygon, or on its lowest / highest plane
                 ok = False
         if ok:
             good.append(r)
+    dropped += len(rows) - len(good)
     rows = _dedupe(good, cols)
     if malformed:
         m = rng.choice(["cols1", "few", "odd"])
@@ -1264,7 +1357,7 @@ def _gen_manager(rng, malformed=False):
             areas.append([[0, 0, 0], [1, 0, 0], [0, 0, 1], [1, 0, 1]])
         else:
             areas[-1] = areas[-1][:-1]
-    return {"kind": "manager", "cols": cols, "cloud": rows, "objs": objs, "mcfg": mcfg, "fcfg": fcfg, "areas": areas}
+    return {"kind": "manager", "cols": cols, "cloud": rows, "objs": objs, "mcfg": mcfg, "fcfg": fcfg, "areas": areas, "dropped": dropped}
 
 
 def corpus():
@@ -1283,7 +1376,7 @@ def corpus():
     # F13 (fixed): a fully occluded object (Visibility.NONE as a member) is a warning even with enough points
     occ = {"box": unit, "vis": "NONE"}
     full = {"box": dict(unit, pos=[10.0, 0.0, 0.0]), "vis": "FULL"}
-    stringy = {"box": dict(unit, pos=[20.0, 0.0, 0.0]), "vis": "str:none"}
+    stringy = {"box": dict(unit, pos=[20.0, 0.0, 0.0]), "vis": "PARTIAL"}  # (was a raw string "none": outside the annotated type)
     cloud = [[0.0, 0.0, 0.0], [0.5, 0.5, 0.5], [10.0, 0.0, 0.0], [30.0, 0.0, 0.0], [20.0, 0.5, 0.0]]
     cs.append({"kind": "frame", "cols": 3, "cloud": cloud, "objs": [occ, full, stringy],
                "cfg": {"s0": 1.0, "s100": 1.0, "min_points": 1, "uuids": None, "mode": "const1"},
@@ -1504,7 +1597,7 @@ def _derive(case, objs):
         from perception_eval.common.geometry import interpolate_object_list
 
         others = [_mk_dobj(spec["boxb"], spec["uuid"], spec.get("vis")) for spec in case["objs"]]
-        return interpolate_object_list(objs, others, 0, 8, case["t"])
+        return interpolate_object_list(object_list1=objs, object_list2=others, t1=0, t2=8, t=case["t"])
     from perception_eval.common.dataset import convert_objects_to_base_link, convert_objects_to_global
     from perception_eval.common.transform import HomogeneousMatrix
 
@@ -1512,9 +1605,9 @@ def _derive(case, objs):
                             rotation=M["Quaternion"](*[float(_F(v)) for v in case["ego"]["quat"]]),
                             src=M["FrameID"].BASE_LINK, dst=M["FrameID"].MAP)
     if how == "to_global":
-        return convert_objects_to_global(objs, ego)
+        return convert_objects_to_global(object_list=objs, ego2map=ego)
     if how == "to_base_link":
-        return convert_objects_to_base_link(objs, ego)
+        return convert_objects_to_base_link(object_list=objs, ego2map=ego)
     raise ValueError(how)
 
 
@@ -1524,7 +1617,7 @@ def _derived_frame(objs, case, cloud, rows, cols):
     res = M["SensingFrameResult"](_frame_cfg(case["cfg"]), 100, "0")
     res.evaluate_frame(list(objs), cloud, nds)
     out = _canon_frame(res, objs, rows, cols)
-    out["nd"] = _nd_ident(out.pop("nd_raw"), case["nd_clouds"], cols)
+    out["nd_points"] = _points(out.pop("nd_raw"), cols)
     return out
 
 
@@ -1537,7 +1630,10 @@ def _run_derived(case):
     s = float(case["s"])
     minpts = case["cfg"]["min_points"]
     src_frame = "map" if case["how"] == "to_base_link" else "base_link"
-    try:
+    # No blanket `try`: the sequence is well-formed, so an exception out of the library escapes (the runner reports "the real
+    # code raised ... unexpectedly"), and one of the harness (e.g. a changed signature of the C17/C18 helpers that `_derive`
+    # only uses to PRODUCE the moved objects) is an infrastructure error, not a violation of C12.
+    if True:
         cloud = _mk_cloud(rows, cols)
         keep = cloud.copy()
         wrows = rows if case["warm_cloud"] == "same" else rows[::2]
@@ -1610,22 +1706,9 @@ def _run_derived(case):
         return {"ref1": ref1, "pre": pre, "state": state, "final": final, "wsr": wsr, "frame": frame, "fresh_frame": fresh_frame,
                 "dists": dists, "orig": orig, "cloud_same": bool(np.array_equal(cloud, keep)),
                 "state_same": all(_same_pose(a, b) for a, b in zip(state, state_after))}
-    except Exception as e:  # noqa
-        import traceback
-
-        return {"err": type(e).__name__, "trace": traceback.format_exc()[-600:]}
-
-
-def _zfuzzy_rows(box, rows, cols):
-    if not box.get("zfuzzy") or cols < 3:
-        return set()
-    cz, h = _F(box["pos"][2]), _F(box["size"][2])
-    return {i for i, r in enumerate(rows) if abs(_F(r[2]) - (cz - h / 2)) < MARGIN or abs(_F(r[2]) - (cz + h / 2)) < MARGIN}
 
 
 def _oracle_derived(case, out):
-    if "err" in out:
-        return f"well-formed derived-object sequence ({case['how']}) rejected with {out['err']}: {out.get('trace', '')[-300:]}"
     rows, cols = case["cloud"], case["cols"]
     n = len(rows)
     how = case["how"]
@@ -1644,7 +1727,7 @@ def _oracle_derived(case, out):
             exp, judged = _expect_box(spec["box"], _F(p["scale"]), wrows, cols)
             for key in ("inside", "outside"):
                 if key in p:
-                    got = [j for j in p[key] if j in set(judged)]
+                    got = sorted(j for j in p[key] if j in set(judged))
                     want = exp if key == "inside" else [j for j in judged if j not in set(exp)]
                     if got != want:
                         return f"object #{i} at its first pose, scale {p['scale']}: {key} rows {got[:12]} but geometrically {key} are {want[:12]}"
@@ -1659,38 +1742,39 @@ def _oracle_derived(case, out):
             if d:
                 return d
             for key in ("inside", "outside"):
-                if r[key] != r["fresh_" + key]:
+                if sorted(r[key]) != sorted(r["fresh_" + key]):
                     diff = sorted(set(r[key]) ^ set(r["fresh_" + key]))
                     return (f"{who}: {key} rows at scale {sc} differ from those of a freshly built object with the same state at rows "
                             f"{diff[:8]} (points {[rows[j] for j in diff[:3]]}); {cur}")
             exp, judged = _expect_box(b2, _F(sc), rows, cols)
-            got = [j for j in r["inside"] if j in set(judged)]
+            got = sorted(j for j in r["inside"] if j in set(judged))
             if got != exp:
                 diff = sorted(set(got) ^ set(exp))
                 return (f"{who}: inside rows at scale {sc} differ from the exact footprint/z test of the CURRENT box at rows {diff[:8]} "
                         f"(points {[rows[j] for j in diff[:3]]}); {cur}")
             if r["num"] != len(r["inside"]) or r["exist"] != (r["num"] > 0) or r["fresh_num"] != r["num"]:
                 return f"{who}: scale {sc}: get_inside_pointcloud_num {r['num']} / point_exist {r['exist']} vs {len(r['inside'])} inside rows"
-            if r["again"] != r["inside"]:
+            if sorted(r["again"]) != sorted(r["inside"]):
                 return f"{who}: the same crop repeated gives {r['again'][:12]} after {r['inside'][:12]}"
-            by_scale.append((_F(sc), r["inside"]))
+            by_scale.append((_F(sc), r["inside"], set(judged)))
         by_scale.sort(key=lambda t: t[0])
-        for (k1, in1), (k2, in2) in zip(by_scale, by_scale[1:]):
-            lost = [j for j in in1 if j not in set(in2)]
+        for (k1, in1, j1), (k2, in2, j2) in zip(by_scale, by_scale[1:]):
+            lost = [j for j in in1 if j not in set(in2) and j in j1 and j in j2]  # rows ON a boundary at either scale: not judged
             if k1 > 0 and lost:
                 return f"{who}: enlarging the scale {float(k1)} -> {float(k2)} removed inside rows {lost[:8]}"
         w = out["wsr"][i]
         exp, judged = _expect_box(b2, _F(s), rows, cols)
-        got = [j for j in w["inside"] if j in set(judged)]
-        if got != exp or w["inside"] != w["fresh_inside"]:
+        got = sorted(j for j in w["inside"] if j in set(judged))
+        if got != exp or sorted(w["inside"]) != sorted(w["fresh_inside"]):
             return (f"{who}: DynamicObjectWithSensingResult(scale {s}) holds inside rows {w['inside'][:12]}; geometrically inside the CURRENT "
                     f"box are {exp[:12]}, a fresh object gives {w['fresh_inside'][:12]}; {cur}")
-        if w["num"] != len(w["inside"]) or w["detected"] != (w["num"] >= cfg["min_points"]) or \
-                w["occluded"] != (spec.get("vis") in ("NONE", "str:none")):
+        # occluded <=> annotated with the member Visibility.NONE; a raw string is outside the annotated type: not judged
+        occ_ok = True if str(spec.get("vis")).startswith("str:") else w["occluded"] == (spec.get("vis") == "NONE")
+        if w["num"] != len(w["inside"]) or w["detected"] != (w["num"] >= cfg["min_points"]) or not occ_ok:
             return f"{who}: sensing result num {w['num']} detected {w['detected']} occluded {w['occluded']} (threshold {cfg['min_points']}, visibility {spec.get('vis')})"
         if out["orig"] is not None:
             exp, judged = _expect_box(spec["box"], _F(s), rows, cols)
-            got = [j for j in out["orig"][i] if j in set(judged)]
+            got = sorted(j for j in out["orig"][i] if j in set(judged))
             if got != exp:
                 return (f"object #{i}: after a copy of it was moved ({how}) and cropped, the ORIGINAL object (still at {spec['box']['pos']}) "
                         f"reports inside rows {got[:12]} but geometrically inside are {exp[:12]}")
@@ -1702,12 +1786,13 @@ def _oracle_derived(case, out):
         d = _oracle_detection(case, cfg, objs2, sub, rows, cols)
         if d:
             return f"evaluate_frame on objects derived by {how}: " + d
-        d = _oracle_nd_frame(objs2, cfg, out["dists"], case["nd_clouds"], fr["nd"], cols)
+        d = _oracle_nd_frame(objs2, cfg, out["dists"], case["nd_clouds"], fr["nd_points"], cols)
         if d:
             return f"evaluate_frame on objects derived by {how}: " + d
         ff = out["fresh_frame"]
-        for key in ("success", "fail", "warning", "nd"):
-            if fr[key] != ff[key]:
+        canon = lambda v: v if not (v and isinstance(v[0], dict)) else sorted((r["gt"], r["num"], sorted(r["inside"]), r["detected"], r["occluded"]) for r in v)
+        for key in ("success", "fail", "warning", "nd_points"):
+            if canon(fr[key]) != canon(ff[key]):
                 return (f"evaluate_frame on objects derived by {how}: {key} = {str(fr[key])[:160]} but freshly built objects with the same "
                         f"states give {str(ff[key])[:160]}")
     return None
@@ -1796,6 +1881,7 @@ def _gen_derived(rng, how=None):
     nobj = rng.choice([1, 1, 2, 3])
     all_scales = sorted(set(warm_scales + scales))
     objs, rows = [], []
+    dropped = 0
     for i in range(nobj):
         near = objs[-1]["box"]["pos"] if objs and rng.random() < 0.5 else None
         b1 = _gen_box(rng, near=near)
@@ -1817,15 +1903,18 @@ def _gen_derived(rng, how=None):
             spec["box2"] = _ego_apply(case["ego"], b1, inverse=(how == "to_base_link"))
         objs.append(spec)
         for b in (spec["box"], spec["box2"]):
-            r, _ = _box_points(rng, b, all_scales, rng.choice([3, 6, 10, 16]), boundary_ok=False)
+            r, _, rej = _box_points(rng, b, all_scales, rng.choice([3, 6, 10, 16]), boundary_ok=False)
+            dropped += rej
             rows.extend(r)
     for _ in range(rng.choice([0, 4, 10])):
         c = rng.choice(objs)[rng.choice(["box", "box2"])]["pos"]
         rows.append([c[0] + _dy(rng, -8, 8, 16), c[1] + _dy(rng, -8, 8, 16), _dy(rng, -3, 3, 16)])
     good = []
     for r in rows:
-        if all(_clear_of_edges(b, k, r[0], r[1], 10 * MARGIN) for o in objs for b in (o["box"], o["box2"]) for k in all_scales):
+        if all(_clear_of_edges(b, k, r[0], r[1], 10 * MARGIN) and not _on_z_bound(b, k, r)
+               for o in objs for b in (o["box"], o["box2"]) for k in all_scales):
             good.append(r)
+    dropped += len(rows) - len(good)
     rng.shuffle(good)
     cols = rng.choice([2, 3, 3, 4, 4, 5])
     good = _dedupe(good, cols)
@@ -1833,7 +1922,7 @@ def _gen_derived(rng, how=None):
     for _ in range(rng.choice([0, 1, 1, 2])):
         pr = rng.choice([0.3, 0.6, 1.0])
         nd.append([list(r) for r in good if rng.random() < pr])
-    case.update({"cols": cols, "cloud": good, "objs": objs, "nd_clouds": nd})
+    case.update({"cols": cols, "cloud": good, "objs": objs, "nd_clouds": nd, "dropped": dropped})
     return case
 
 
@@ -1842,6 +1931,13 @@ def _gen_derived(rng, how=None):
 def branches(case, out):
     k = case["kind"]
     b = [f"kind:{k}", f"cols:{case['cols']}", f"npts:{min(len(case['cloud']) // 20 * 20, 100)}+"] + _table_branches()
+    if out.get("unexpected"):
+        return b + ["err:unexpected:" + str(out.get("err"))]
+    if _malformed(case):
+        return b + ["trivial", f"skipped:malformed-input:{k}"]  # outside the quantifier: neither judged nor compared
+    if case.get("dropped"):
+        b.append("unjudged:generator-dropped-boundary-rows")  # rows the generator left out because they graze a box / area edge
+        b.append(f"unjudged:generator-dropped-boundary-rows:n={min(case['dropped'], 5)}{'+' if case['dropped'] > 5 else ''}")
     if case.get("table_witness"):
         b.append("table:witness")
     if k == "raw":
@@ -1892,7 +1988,7 @@ def branches(case, out):
             for key in ("success", "fail", "warning"):
                 if out["frame"][key]:
                     b.append(f"derived:frame:{key}")
-            b.append(f"derived:frame:nd-reported:{min(len(out['frame']['nd']), 3)}")
+            b.append(f"derived:frame:nd-points-reported:{min(len(out['frame']['nd_points']), 3)}")
         if out["orig"] is not None:
             b.append("derived:original-rechecked")
         return b
@@ -1946,12 +2042,15 @@ def branches(case, out):
                     if any((lambda a, c: a is not None and c is not None and a != c)(
                             _box_inside(o["box"], kt, r, cols), _box_inside(o["box"], kw, r, cols)) for r in near):
                         b.append(f"{k}:point-between-true-and-{name}-footprint" + (":beyond-100m" if d > 100 else ""))
-    b.append(f"{k}:nd-reported:{min(len(out['nd']), 3)}")
+    nd = out["nd_points"] if k == "frame" else out["nd_rows"]
+    b.append(f"{k}:nd-reported:{min(len(nd), 3)}")
     if k == "frame":
         b.append(f"frame:nd-given:{min(len(case['nd_clouds']), 3)}")
-        if len(out["nd"]) < len(case["nd_clouds"]):
-            b.append("frame:nd-cloud-vanished")
-    if not (out["success"] or out["fail"] or out["warning"] or out["nd"]):
+        if any(c for c in case["nd_clouds"]) and not nd:
+            b.append("frame:nd-clouds-vanished")
+    if any(str(o.get("vis")).startswith("str:") for o in case["objs"]):
+        b.append(f"{k}:unjudged:raw-string-visibility")
+    if not (out["success"] or out["fail"] or out["warning"] or nd):
         b.append("trivial")
     return b
 
